@@ -30,9 +30,6 @@ theorem advance_refines {s a b f} (h : R s a) (hb : a.behind = none) (hf : s.fro
   have ha := h.alive hal
   destruct_R h
   constructor <;> simp_all <;> (try assumption) <;> (try omega)
-  intro bl bp x y hxy h1 h2
-  have := hbufV x y hxy
-  omega
 
 theorem runeTail_refines {s a} (b : Byte) (bq : Nat) (h : R s a) (hal : a.err = none)
     (hcur : s.bsp = s.back.length) (hb7 : b.toNat < 0x80) :
@@ -46,8 +43,7 @@ theorem runeTail_refines {s a} (b : Byte) (bq : Nat) (h : R s a) (hal : a.err = 
   by_cases h96 : b = 96 <;> cases hsl : s.lit <;>
     (constructor <;> simp_all <;> (try assumption) <;> (try omega))
 
-theorem R.setReadEOF {s a} (h : R s a) (v : Bool) :
-    R { s with readEOF := false } { a with readEOF := false, ok := v } := by
+theorem R.setReadEOF {s a} (h : R s a) : R { s with readEOF := false } a := by
   destruct_R h
   constructor <;> simp_all <;> assumption
 
@@ -56,7 +52,7 @@ theorem R.setReadEOF {s a} (h : R s a) (v : Bool) :
   by_cases h96 : b = 96 <;> cases hl : a.lit <;> simp [h96, hl]
 
 theorem runeAfterEsc_ok (b : Byte) (bq : Nat) (a : LSt) :
-    (LSt.runeAfterEsc b bq a).st.ok = (a.ok && (a.openBq == 0 || decide (a.look ≥ 1) || a.rest.isEmpty)) := by
+    (LSt.runeAfterEsc b bq a).st.ok = a.ok := by
   unfold LSt.runeAfterEsc
   cases hr : a.rest with
   | nil => simp [LSt.Step.st]
@@ -71,14 +67,13 @@ theorem R.setCol {s a} (h : R s a) (k : Nat) :
 
 theorem runeAfterEsc_refines {s a} (b : Byte) (bq : Nat) (h : R s a) (hal : a.err = none)
     (hcur : s.bsp = s.back.length) (hb7 : b.toNat < 0x80)
-    (hok : (LSt.runeAfterEsc b bq a).st.ok = true) :
+    (hlk : 1 ≤ a.look ∨ a.rest = []) :
     StepR (St.runeAfterEsc b bq s) (LSt.runeAfterEsc b bq a) := by
-  rw [runeAfterEsc_ok] at hok
   have hobq := h.f_openBq
   have hobd := h.f_openBqDbl
   have hrest := (h.alive hal).1
   have hlook := h.look hal
-  have h' := h.setReadEOF (a.ok && (a.openBq == 0 || decide (a.look ≥ 1) || a.rest.isEmpty))
+  have h' := h.setReadEOF
   have hcur' : ({ s with readEOF := false } : St).bsp = ({ s with readEOF := false } : St).back.length := hcur
   unfold St.runeAfterEsc LSt.runeAfterEsc
   simp only []
@@ -92,55 +87,39 @@ theorem runeAfterEsc_refines {s a} (b : Byte) (bq : Nat) (h : R s a) (hal : a.er
     · exact ⟨rfl, by simpa [hf, hr, hobq, hobd] using hc⟩
     · simpa [StepR, hf, hr, hobq, hobd] using ht
   | nil =>
-    cases hp : s.pending with
-    | nil =>
-      have hr : a.rest = [] := by rw [hrest, hf, hp]; rfl
-      have ht := runeTail_refines b bq h' hal hcur' hb7
-      simp only [hr]
-      simpa [StepR, hf, hr, hp, hobq, hobd] using ht
-    | cons c t =>
-      have hr : a.rest = c :: t := by rw [hrest, hf, hp]; rfl
-      have h0 : a.openBq = 0 := by
-        simp [hr] at hok
-        rcases hok.2 with h1 | h1
-        · exact h1
-        · rcases hlook with h2 | h2
-          · simp [hf] at h2; omega
-          · simp [hp] at h2
-      have ht := runeTail_refines b bq h' hal hcur' hb7
-      rw [hobq] at h0
-      simp only [hr, hobq, hobd, h0]
-      simpa [StepR, hf, hr, hp, h0, hobq, hobd] using ht
+    have hp : s.pending = [] := by
+      rcases hlk with h1 | h1
+      · rcases hlook with h2 | h2
+        · simp [hf] at h2; omega
+        · exact h2
+      · exact h.pending_nil hal h1
+    have hr : a.rest = [] := by rw [hrest, hf, hp]; rfl
+    have ht := runeTail_refines b bq h' hal hcur' hb7
+    simp only [hr]
+    simpa [StepR, hf, hr, hp, hobq, hobd] using ht
 
 /-! ### field facts of the spec-side effects -/
 
 theorem peek_snd (a : LSt) : a.peek.2 = a.forget.peekEff0 := by rw [peek_eq]
+theorem peekTwo_snd (a : LSt) : a.peekTwo.2.2 = a.forget.peekTwoEff0 := by rw [peekTwo_eq]
+theorem peekTwo_1 (a : LSt) : a.peekTwo.1 = pk1 a.rest := by rw [peekTwo_eq]
+theorem peekTwo_2 (a : LSt) : a.peekTwo.2.1 = pk2 a.rest := by rw [peekTwo_eq]
 
-@[simp] theorem peekEff0_rest (a : LSt) : a.peekEff0.rest = a.rest := by
-  unfold LSt.peekEff0; split <;> simp
-@[simp] theorem peekEff0_err (a : LSt) : a.peekEff0.err = a.err := by
-  unfold LSt.peekEff0; split <;> simp
-@[simp] theorem peekEff0_r (a : LSt) : a.peekEff0.r = a.r := by
-  unfold LSt.peekEff0; split <;> simp
-@[simp] theorem peekEff0_ok (a : LSt) : a.peekEff0.ok = a.ok := by
-  unfold LSt.peekEff0; split <;> simp
-@[simp] theorem peekEff0_behind (a : LSt) : a.peekEff0.behind = a.behind := by
-  unfold LSt.peekEff0; split <;> simp
-@[simp] theorem peekEff0_look (a : LSt) : a.peekEff0.look = max a.look 1 := by
-  unfold LSt.peekEff0; split <;> simp
+@[simp] theorem peekEff0_rest (a : LSt) : a.peekEff0.rest = a.rest := rfl
+@[simp] theorem peekEff0_err (a : LSt) : a.peekEff0.err = a.err := rfl
+@[simp] theorem peekEff0_r (a : LSt) : a.peekEff0.r = a.r := rfl
+@[simp] theorem peekEff0_ok (a : LSt) : a.peekEff0.ok = a.ok := rfl
+@[simp] theorem peekEff0_behind (a : LSt) : a.peekEff0.behind = a.behind := rfl
+@[simp] theorem peekEff0_look (a : LSt) : a.peekEff0.look = max a.look 1 := rfl
+@[simp] theorem peekEff0_halted (a : LSt) : a.peekEff0.halted = a.halted := rfl
 
-@[simp] theorem peekTwoEff0_err (a : LSt) : a.peekTwoEff0.err = a.err := by
-  unfold LSt.peekTwoEff0
-  rcases h : a.rest with _ | ⟨b, _ | ⟨c, f⟩⟩ <;> simp [h]
-@[simp] theorem peekTwoEff0_r (a : LSt) : a.peekTwoEff0.r = a.r := by
-  unfold LSt.peekTwoEff0
-  rcases h : a.rest with _ | ⟨b, _ | ⟨c, f⟩⟩ <;> simp [h]
-@[simp] theorem peekTwoEff0_behind (a : LSt) : a.peekTwoEff0.behind = a.behind := by
-  unfold LSt.peekTwoEff0
-  rcases h : a.rest with _ | ⟨b, _ | ⟨c, f⟩⟩ <;> simp [h]
-@[simp] theorem peekTwoEff0_look (a : LSt) : a.peekTwoEff0.look = max a.look 2 := by
-  unfold LSt.peekTwoEff0
-  rcases h : a.rest with _ | ⟨b, _ | ⟨c, f⟩⟩ <;> simp [h]
+@[simp] theorem peekTwoEff0_rest (a : LSt) : a.peekTwoEff0.rest = a.rest := rfl
+@[simp] theorem peekTwoEff0_err (a : LSt) : a.peekTwoEff0.err = a.err := rfl
+@[simp] theorem peekTwoEff0_r (a : LSt) : a.peekTwoEff0.r = a.r := rfl
+@[simp] theorem peekTwoEff0_ok (a : LSt) : a.peekTwoEff0.ok = a.ok := rfl
+@[simp] theorem peekTwoEff0_behind (a : LSt) : a.peekTwoEff0.behind = a.behind := rfl
+@[simp] theorem peekTwoEff0_look (a : LSt) : a.peekTwoEff0.look = max a.look 2 := rfl
+@[simp] theorem peekTwoEff0_halted (a : LSt) : a.peekTwoEff0.halted = a.halted := rfl
 
 @[simp] theorem consume_ok (a : LSt) : a.consume.ok = a.ok := by
   unfold LSt.consume; split <;> rfl
@@ -151,6 +130,8 @@ theorem peek_snd (a : LSt) : a.peek.2 = a.forget.peekEff0 := by rw [peek_eq]
 @[simp] theorem consume_behind (a : LSt) : a.consume.behind = a.behind := by
   unfold LSt.consume; split <;> rfl
 @[simp] theorem consume_openBq (a : LSt) : a.consume.openBq = a.openBq := by
+  unfold LSt.consume; split <;> rfl
+@[simp] theorem consume_halted (a : LSt) : a.consume.halted = a.halted := by
   unfold LSt.consume; split <;> rfl
 
 theorem R.cursor_of_ne {s a} (h : R s a) (hr : a.r ≠ runeEOF) : s.bsp = s.back.length := by
@@ -208,92 +189,66 @@ theorem R.front_cons2 {s a c d t} (h : R s a) (hal : a.err = none) (hl : 2 ≤ a
   unfold St.advance; split <;> rfl
 
 theorem runeBackslash_refines {s a} (b : Byte) (bq : Nat) (h : R s a) (hal : a.err = none)
-    (hr : a.r ≠ runeEOF) (hb7 : b.toNat < 0x80)
-    (hok : (LSt.runeBackslash b bq a).st.ok = true) :
+    (hr : a.r ≠ runeEOF) (hb7 : b.toNat < 0x80) (hh : a.halted = false) :
     ∃ st, St.runeBackslash b bq s = .ok st ∧ StepR st (LSt.runeBackslash b bq a) := by
-  unfold LSt.runeBackslash at hok ⊢
+  unfold LSt.runeBackslash
   unfold St.runeBackslash
   have hfr := h.f_r
+  obtain ⟨s1, hp1, hR1⟩ := peek_step h hh
+  rw [peek_eq]
+  simp only
+  have hal1 : a.forget.peekEff0.err = none := by simpa using hal
+  have hr1 : a.forget.peekEff0.r ≠ runeEOF := by simpa using hr
+  have hh1 : a.forget.peekEff0.halted = false := by simpa using hh
+  have hb1 : a.forget.peekEff0.behind = none := by simp
+  have hl1 : 1 ≤ a.forget.peekEff0.look := by simp; omega
+  have hrest1 : a.forget.peekEff0.rest = a.rest := by simp
+  generalize a.forget.peekEff0 = a1 at hR1 hal1 hr1 hh1 hb1 hl1 hrest1 ⊢
   by_cases h92 : a.r = 92
   · have h92' : s.r = 92 := by rw [← hfr]; exact h92
-    simp only [h92, h92', beq_self_eq_true, if_true] at hok ⊢
-    exact ⟨_, rfl, runeAfterEsc_refines b bq h hal (h.cursor_of_ne hr) hb7 hok⟩
+    simp only [h92, h92', beq_self_eq_true, if_true, hp1, bind_ok]
+    exact ⟨_, rfl, runeAfterEsc_refines b bq hR1 hal1 (hR1.cursor_of_ne hr1) hb7 (Or.inl hl1)⟩
   · have h92' : ¬ s.r = 92 := by rw [← hfr]; exact h92
     have e1 : (a.r == 92) = false := by simp [h92]
     have e2 : (s.r == 92) = false := by simp [h92']
-    simp only [e1, e2, Bool.false_eq_true, if_false] at hok ⊢
-    obtain ⟨s1, hp1, hR1⟩ := peek_refines h
-    have ea1 := peek_snd a
-    rcases hpk : a.peek with ⟨pk, a1⟩
-    rw [hpk] at hp1 hR1 ea1
-    simp only [hpk] at hok ⊢
-    simp only [hp1, bind_ok]
-    have hpkv : pk = pk1 a.rest := by
-      have := congrArg Prod.fst (peek_eq a)
-      rw [hpk] at this
-      simp only [peekEff0_rest, forget_rest] at this
-      rw [this]
-      cases a.rest <;> rfl
-    simp only at ea1 hR1
-    subst ea1
-    have hal1 : a.forget.peekEff0.err = none := by simpa using hal
-    have hr1 : a.forget.peekEff0.r ≠ runeEOF := by simpa using hr
-    by_cases h10 : pk = 10
-    · simp only [h10, beq_self_eq_true, if_true] at hok ⊢
-      -- the next byte is a newline: consume it
+    simp only [e1, e2, Bool.false_eq_true, if_false, hp1, bind_ok]
+    by_cases h10 : pk1 a.rest = 10
+    · simp only [h10, beq_self_eq_true, if_true]
       obtain ⟨c, t, hrest, hc⟩ : ∃ c t, a.rest = c :: t ∧ c.toNat = 10 := by
         cases hrr : a.rest with
-        | nil => rw [hrr] at hpkv; simp [pk1, runeSelf, h10] at hpkv
-        | cons c t => rw [hrr] at hpkv; exact ⟨c, t, rfl, by simpa [pk1, h10] using hpkv.symm⟩
-      obtain ⟨f, hf⟩ := hR1.front_cons hal1 (by simp; omega) (by simpa using hrest)
-      obtain ⟨hRa, hcur, hala⟩ := advance_refines hR1 (by simp) hf
+        | nil => rw [hrr] at h10; simp [pk1, runeSelf] at h10
+        | cons c t => rw [hrr] at h10; exact ⟨c, t, rfl, by simpa [pk1] using h10⟩
+      obtain ⟨f, hf⟩ := hR1.front_cons hal1 hl1 (by rw [hrest1]; exact hrest)
+      obtain ⟨hRa, hcur, hala⟩ := advance_refines hR1 hb1 hf
       have := hRa.setWR hala hcur 1 escNewl (by simp [escNewl, runeEOF])
       exact ⟨_, rfl, by simpa [StepR] using this⟩
-    · have e3 : (pk == 10) = false := by simp [h10]
-      simp only [e3, Bool.false_eq_true, if_false] at hok ⊢
-      generalize ha1 : a.forget.peekEff0 = a1 at hR1 hal1 hr1 hok ⊢
-      have hb1 : a1.behind = none := by rw [← ha1]; simp
-      have e2s := peekTwo_snd a1
-      have e21 := peekTwo_1 a1
-      have e22 := peekTwo_2 a1
-      rcases hpk2 : a1.peekTwo with ⟨p1, p2, a2⟩
-      rw [hpk2] at e2s e21 e22
-      simp only at e2s e21 e22
-      simp only [hpk2] at hok ⊢
-      have hok2 : a2.ok = true := by
-        by_cases hcr : (p1 == 13 && p2 == 10) = true
-        · simp only [hcr, if_true] at hok
-          simpa [LSt.Step.st, LSt.consumeN] using hok
-        · have hcr' : (p1 == 13 && p2 == 10) = false := by simpa using hcr
-          simp only [hcr', Bool.false_eq_true, if_false] at hok
-          rw [runeAfterEsc_ok] at hok
-          simp at hok
-          exact hok.1
-      obtain ⟨s2, hp2, hR2⟩ := peekTwo_refines hR1 (by rw [hpk2]; exact hok2)
-      rw [hpk2] at hp2 hR2
-      simp only at hp2 hR2
+    · have e3 : (pk1 a.rest == 10) = false := by simp [h10]
+      simp only [e3, Bool.false_eq_true, if_false]
+      obtain ⟨s2, hp2, hR2⟩ := peekTwo_step hR1 hh1
+      rw [peekTwo_eq]
       simp only [hp2, bind_ok]
-      have hal2 : a2.err = none := by rw [e2s]; simpa using hal1
-      have hr2 : a2.r ≠ runeEOF := by rw [e2s]; simpa using hr1
-      have hb2 : a2.behind = none := by rw [e2s]; simp
-      have hl2 : 2 ≤ a2.look := by rw [e2s]; simp; omega
-      have hrest2 : a2.rest = a1.rest := by rw [e2s]; simp [peekTwoEff0_rest]
-      by_cases hcr : (p1 == 13 && p2 == 10) = true
+      have hal2 : a1.forget.peekTwoEff0.err = none := by simpa using hal1
+      have hr2 : a1.forget.peekTwoEff0.r ≠ runeEOF := by simpa using hr1
+      have hb2 : a1.forget.peekTwoEff0.behind = none := by simp
+      have hl2 : 2 ≤ a1.forget.peekTwoEff0.look := by simp; omega
+      have hrest2 : a1.forget.peekTwoEff0.rest = a1.rest := by simp
+      generalize a1.forget.peekTwoEff0 = a2 at hR2 hal2 hr2 hb2 hl2 hrest2 ⊢
+      by_cases hcr : (pk1 a1.rest == 13 && pk2 a1.rest == 10) = true
       · simp only [hcr, if_true]
         simp at hcr
         obtain ⟨c, d, t, hrest, hc, hd⟩ : ∃ c d t, a1.rest = c :: d :: t ∧ c.toNat = 13 ∧ d.toNat = 10 := by
           rcases hrr : a1.rest with _ | ⟨c, _ | ⟨d, t⟩⟩
-          · rw [hrr] at e21; simp [pk1, runeSelf, hcr.1] at e21
-          · rw [hrr] at e22; simp [pk2, runeSelf, hcr.2] at e22
-          · rw [hrr] at e21 e22
-            exact ⟨c, d, t, rfl, by simpa [pk1, hcr.1] using e21.symm, by simpa [pk2, hcr.2] using e22.symm⟩
+          · rw [hrr] at hcr; simp [pk1, runeSelf] at hcr
+          · rw [hrr] at hcr; simp [pk2, runeSelf] at hcr
+          · rw [hrr] at hcr
+            exact ⟨c, d, t, rfl, by simpa [pk1] using hcr.1, by simpa [pk2] using hcr.2⟩
         obtain ⟨f, hf⟩ := hR2.front_cons2 hal2 hl2 (by rw [hrest2]; exact hrest)
         obtain ⟨hRa, _, hala⟩ := advance_refines hR2 hb2 hf
         obtain ⟨hRb, hcurb, halb⟩ := advance_refines hRa (by simpa using hb2) (advance_front hf)
         have := (hRb.setCol 1).setWR halb hcurb 2 escNewl (by simp [escNewl, runeEOF])
         exact ⟨_, rfl, by simpa [StepR, St.advanceN, LSt.consumeN] using this⟩
-      · have hcr' : (p1 == 13 && p2 == 10) = false := by simpa using hcr
-        simp only [hcr', Bool.false_eq_true, if_false] at hok ⊢
-        exact ⟨_, rfl, runeAfterEsc_refines b bq hR2 hal2 (hR2.cursor_of_ne hr2) hb7 hok⟩
+      · have hcr' : (pk1 a1.rest == 13 && pk2 a1.rest == 10) = false := by simpa using hcr
+        simp only [hcr', Bool.false_eq_true, if_false]
+        exact ⟨_, rfl, runeAfterEsc_refines b bq hR2 hal2 (hR2.cursor_of_ne hr2) hb7 (Or.inl (by omega))⟩
 
 end ShVerif.C07
